@@ -8,7 +8,7 @@ from . import searcher, rule, class_db, class_queue, equiv_db  # noqa: F401  (re
 FB = "comb_spec_searcher/rule_db/base.py"
 FF = "comb_spec_searcher/rule_db/forget.py"
 RuleKey = Tup(Int, Seq(Int))
-RulesDict = Dict(Int, Set(Seq(Int)))
+RulesDict = DefaultDict(Int, Set(Seq(Int)))
 AL = {"RuleKey": RuleKey, "Strategy": Strategy, "CombClass": CombClass}
 
 # ---------------------------------------------------------------- RecomputingDict: the key set is what matters
@@ -218,11 +218,39 @@ contract(FT, "prune", props=["C05"], verify=False,
 contract(FT, "iterative_prune", props=["C05"], verify=False,
          trusted_reason="summary used by pruned_dict (fresh result); iterative_prune itself is bounded",
          params={"rules_dict": RulesDict, "root": Opt(Int)}, returns=RulesDict, ensures=["fresh(result)"])
-contract(FB, "RuleDBBase.rules_up_to_equivalence", props=["C05"], verify=False,
-         trusted_reason="summary used by pruned_dict: returns a fresh dictionary and may merge equivalence classes "
-                        "(connect_cycles); its content is checked by the bounded stand-in",
-         params={"self": Obj("RuleDBBase")}, returns=RulesDict, ensures=["fresh(result)", "wf(self.equivdb)"],
-         modifies=["all:Obj('EquivalenceDB')", "all:Dict(Int, Int)", "all:Set(Int)", "all:DefaultDict(Int, Set(Int))"])
+_REPKEY = "self.equivdb.rep[{x}]"
+contract(FB, "RuleDBBase.__iter__", props=["C05", "C02"], aliases=AL, returns=Seq(RuleKey),
+         params={"self": Obj("RuleDBBase")}, yields=["len(it[1]) >= 0"], modifies=[], verify=False,
+         trusted_reason="itertools.chain of the two stores' key iterators; which keys are stored is the subject of "
+                        "RuleDBBase.add (verified) and completeness of the iteration is checked by the bounded stand-in")
+contract(FB, "RuleDBBase.are_equivalent", props=["C05", "C02"], inline=True, verify=False, aliases=AL,
+         trusted_reason="one-line delegation to equivdb.equivalent, inlined from its real source", params={})
+
+contract(FB, "RuleDBBase.rules_up_to_equivalence", props=["C05", "C02"], aliases=AL,
+         params={"self": Obj("RuleDBBase")}, returns=RulesDict,
+         locals={"rules_dict": DefaultDict(Int, Set(Seq(Int))), "_comp0": List(Int)},
+         requires=["wf(self.equivdb)"],
+         ensures=["fresh(result)", "wf(self.equivdb)",
+                  # every key is a representative, every rule consists of representatives, sorted
+                  "forall(lambda k: implies(k in result, " + _REPKEY.format(x="k") + " == k))",
+                  # a rule that only restates an equivalence (single child in the parent's own class) is never kept:
+                  # this is what keeps circular one-child rules out of the pruned dictionary
+                  "forall(lambda k: implies(k in result, not ((k,) in result[k])))"],
+         comp_loops={0: dict(invariant=["wf(self.equivdb)", "len(_comp0) == _ic0",
+                                        "forall(lambda y: self.equivdb.rep[y] == at('loopc0', self.equivdb.rep[y]))",
+                                        "forall(lambda j: implies(0 <= j and j < _ic0, _comp0[j] == self.equivdb.rep[ends[j]]))"],
+                             modifies=["*_comp0", "*self.equivdb.parents", "*self.equivdb.weights"])},
+         loops={0: dict(invariant=[
+             "wf(self.equivdb)", "forall(lambda y: self.equivdb.rep[y] == at('loop0', self.equivdb.rep[y]))",
+             "forall(lambda k: implies(k in rules_dict, " + _REPKEY.format(x="k") + " == k))",
+             "forall(lambda k: implies(k in rules_dict, not ((k,) in rules_dict[k])))",
+             "forall(lambda k1, k2: implies(k1 in rules_dict and k2 in rules_dict and k1 != k2, "
+             "not same(rules_dict[k1], rules_dict[k2])))",
+             "fresh(rules_dict)", "forall(lambda k: implies(k in rules_dict, fresh(rules_dict[k])))"],
+             modifies=["*rules_dict", "all:Set(Seq(Int))", "all:List(Int)", "*self.equivdb.parents", "*self.equivdb.weights"])},
+         modifies=["all:Obj('EquivalenceDB')", "all:Dict(Int, Int)", "all:Set(Int)", "all:DefaultDict(Int, Set(Int))",
+                   "all:List(Int)", "all:Set(Seq(Int))", "all:DefaultDict(Int, Set(Seq(Int)))"],
+         notes="rules collapsed to representatives; one-child rules inside one equivalence class are dropped")
 
 _FIND = "EquivalenceDB.__getitem__"
 contract(FB, "RuleDBBase.pruned_dict", props=["C05"],
@@ -234,24 +262,23 @@ contract(FB, "RuleDBBase.pruned_dict", props=["C05"],
              # iterative packs: recursion is allowed to the start class's own equivalence class, i.e. the root handed to
              # the pruning is the representative found for root_label AFTER equivalences were brought up to date
              "iterative_prune": ["iterative_of(self)", "not is_none(root)",
-                                 f'val(root) == last_result("{_FIND}")',
-                                 f'last_arg("{_FIND}", 1) == root_label_of(self)',
-                                 f'called_after("{_FIND}", "RuleDBBase.rules_up_to_equivalence")',
+                                 # (state after the equivalences were brought up to date)
+                                 "val(root) == self.equivdb.rep[root_label_of(self)]",
+                                 'called_after("EquivalenceDB.__getitem__", "RuleDBBase.rules_up_to_equivalence")',
                                  'same(rules_dict, last_result("RuleDBBase.rules_up_to_equivalence"))'],
              "prune": ["not iterative_of(self)", 'same(rdict, last_result("RuleDBBase.rules_up_to_equivalence"))'],
              "RuleDBBase.rules_up_to_equivalence": ["old(is_none(self._pruned_dict))"]},
          loops={0: dict(invariant=["wf(self.equivdb)"],
                         modifies=["all:Obj('EquivalenceDB')", "all:Dict(Int, Int)", "all:Set(Int)", "all:DefaultDict(Int, Set(Int))"])},
          modifies=["self._pruned_dict", "all:Obj('EquivalenceDB')", "all:Dict(Int, Int)", "all:Set(Int)",
-                   "all:DefaultDict(Int, Set(Int))", "all:Set(Seq(Int))", "all:Dict(Int, Set(Seq(Int)))"],
+                   "all:DefaultDict(Int, Set(Int))", "all:Set(Seq(Int))", "all:DefaultDict(Int, Set(Seq(Int)))"],
          notes="recomputed only when the cache is empty; the right pruning with the right root")
 
 contract(FB, "RuleDBBase.has_specification", props=["C05"],
          params={"self": Obj("RuleDBBase")}, returns=Bool, requires=["wf(self.equivdb)"],
-         ensures=[f'result == (last_result("{_FIND}") in val(self._pruned_dict))',
-                  f'last_arg("{_FIND}", 1) == root_label_of(self)',
+         ensures=["result == (self.equivdb.rep[root_label_of(self)] in val(self._pruned_dict))",
                   # the representative is asked for only after the pruned dictionary (hence the equivalences) is up to date
                   f'called_after("{_FIND}", "RuleDBBase.pruned_dict")'],
          modifies=["self._pruned_dict", "all:Obj('EquivalenceDB')", "all:Dict(Int, Int)", "all:Set(Int)",
-                   "all:DefaultDict(Int, Set(Int))", "all:Set(Seq(Int))", "all:Dict(Int, Set(Seq(Int)))"],
+                   "all:DefaultDict(Int, Set(Int))", "all:Set(Seq(Int))", "all:DefaultDict(Int, Set(Seq(Int)))"],
          notes="a specification exists iff the representative of the start label survives in the pruned dictionary")
